@@ -32,7 +32,7 @@ text (`peeled_pattern`), matching is the plain search of the stored text (`store
 
 * patterns outside the regex subset of `Model/Regex.lean` (`Regex.lex` = `none`) or longer than `patternSizeOk`;
 * decimal texts on which `rust_decimal` rounds (more than 28 decimals, or a coefficient that exceeds 96 bits
-  only because of its decimals) — from there on `parse_str_radix_10` even ignores trailing garbage (finding F23);
+  only because of its decimals) — from there on `parse_str_radix_10` even ignores trailing garbage (finding F26);
 * timestamp spellings other than `[±00]YYYY-MM-DDTHH:MM:SS[.d{1,9}](Z|±HH:MM)` (jiff accepts many more: a space or
   lower-case `t`/`z`, `,` as decimal separator, basic format, offsets `±HH`, `±HHMM`, `±HH:MM:SS`, `[zone]`
   annotations, second 60);
